@@ -182,6 +182,83 @@ def status_accessors(chk):
     _ob.run_obligations(chk, obs)
 
 
+def curve_id_range(chk):
+    """The curve identifier of a key structure is chosen by whoever supplies the key.  Every EC entry point tests support with
+    `(impl->supported_curves >> curve) & 1`: a shift by 32 or more (or a negative amount) is undefined behaviour, and on targets that
+    mask the count an unsupported identifier aliases a supported one and then indexes the curve tables out of bounds.  Sibling rule
+    over src/ec (br_ec_keygen and br_ec_compute_pub test `curve < 0 || curve >= 32` first): every shift of supported_curves by a
+    non-constant amount is dominated by the in-range side of a comparison of that amount with a constant <= 32."""
+    from .. import wmw
+    R = 'curve-id-range-checked'
+    P = wmw.program()
+    n = 0
+    for (un, fn), F in sorted(P.static.items()):
+        if not F.file().replace(build.REPO + '/', '').startswith('src/ec/'):
+            continue
+        for i in F.insts.values():
+            if i['op'] not in ('lshr', 'shl', 'ashr') or i['ops'][1]['k'] == 'c':
+                continue
+            x = F.strip_casts(i['ops'][0])
+            if not (x['k'] == 'i' and F.insts[x['v']]['op'] == 'load'):
+                continue
+            st, off, _ = wmw.typed_base(F, F.insts[x['v']]['ops'][0])
+            if st != 'br_ec_impl' or off != 0:
+                continue
+            n += 1
+
+            def src(o):
+                while o['k'] == 'i' and F.insts[o['v']]['op'] in ('zext', 'sext', 'trunc'):
+                    o = F.insts[o['v']]['ops'][0]
+                return o
+            amt = src(i['ops'][1])
+
+            def same(a, b):
+                """same SSA value, or two loads of the same (const) key field: base pointer + constant offset"""
+                if a == b:
+                    return True
+                if a['k'] == 'i' and b['k'] == 'i' and F.insts[a['v']]['op'] == 'load' and F.insts[b['v']]['op'] == 'load':
+                    pa, pb = F.addr_of(F.insts[a['v']]['ops'][0]), F.addr_of(F.insts[b['v']]['ops'][0])
+                    return pa == pb and pa[1] is not None and pa[0]['k'] == 'a'
+                return False
+            inst = '%s: the shift of supported_curves (line %s) is by an amount proved to lie in 0..31' % (fn, i.get('line'))
+            okk = False
+            if amt['k'] == 'i' and F.insts[amt['v']]['op'] == 'and' and any(q['k'] == 'c' and 0 <= q['v'] <= 31 for q in F.insts[amt['v']]['ops']):
+                okk = True
+            hi = lo = False
+            for c in F.insts.values():
+                if c['op'] != 'icmp' or c['ops'][1]['k'] != 'c' or not same(src(c['ops'][0]), amt):
+                    continue
+                k, p = c['ops'][1]['v'], c['pred']
+                # which successor of the branch on c is the in-range side?
+                side = None
+                if p in ('sge', 'uge') and 1 <= k <= 32 or p in ('sgt', 'ugt') and 0 <= k <= 31:
+                    side, what = 'false', 'hi' if p[0] == 's' else 'both'
+                elif p in ('slt', 'ult') and 1 <= k <= 32 or p in ('sle', 'ule') and 0 <= k <= 31:
+                    side, what = 'true', 'hi' if p[0] == 's' else 'both'
+                elif p == 'slt' and k == 0:
+                    side, what = 'false', 'lo'
+                elif p == 'sge' and k == 0 or p == 'sgt' and k == -1:
+                    side, what = 'true', 'lo'
+                if side is None:
+                    continue
+                for b in F.blocks:
+                    t = b['insts'][-1]
+                    if t['op'] == 'br' and len(t['ops']) == 3 and t['ops'][0] == {'k': 'i', 'v': c['id']}:
+                        dest = t['ops'][2]['v'] if side == 'true' else t['ops'][1]['v']
+                        if len(F.pred[dest]) == 1 and F.dominates_block(dest, F.block_of[i['id']]):
+                            if what in ('hi', 'both'):
+                                hi = True
+                            if what in ('lo', 'both'):
+                                lo = True
+            if okk or (hi and lo):
+                chk.ok(R, inst, F.where(i))
+            else:
+                chk.violation(R, inst, F.where(i), 'no dominating test bounds the curve identifier (%s): a key structure with curve >= 32 or < 0 makes the shift undefined, and an '
+                              'aliased identifier indexes the curve tables out of bounds' % ('upper bound only' if hi else 'lower bound only' if lo else 'none'),
+                              key='%s %s' % (R, fn))
+    chk.floor('supported_curves shifts in src/ec', n, 6)
+
+
 def run(tier):
     chk = report.Check('C05', tier,
                        'Static bounds for the T0 virtual machines that parse all untrusted input (X.509, keys, PEM, both handshakes): '
@@ -217,6 +294,7 @@ def run(tier):
     engio.offered_regions(chk)
     no_resume_after_fail(chk)
     status_accessors(chk)
+    curve_id_range(chk)
     from .. import bufcopy
     bufcopy.check(chk)
     chk.floor('interpreters', len(t0.INTERPRETERS), 7)
